@@ -347,3 +347,65 @@ def write_replay(prop, failure, seed):
 
 def rng(seed, tag=""):
     return random.Random("%s/%s" % (seed, tag))
+
+
+# ---------------------------------------------------------------- source guards
+# A hand-written model describes the function it was written against.  For every (file, qualified function name) a property
+# module lists in GUARDED, the normalised source (ast.unparse without the docstring) is compared with the text stored under
+# harness/corr/guards/.  A difference does not say the property is violated -- it says the model may no longer describe the
+# code, i.e. the theorems no longer show the property of the current source; the check then reports broken-correspondence
+# and relies on the correspondence runs and the search for a failing input.
+
+def _find_def(tree, qual):
+    import ast
+    cur = tree
+    for part in qual.split("."):
+        nxt = None
+        for n in ast.iter_child_nodes(cur):
+            if isinstance(n, (ast.FunctionDef, ast.AsyncFunctionDef, ast.ClassDef)) and n.name == part:
+                nxt = n
+                break
+        if nxt is None:
+            return None
+        cur = nxt
+    return cur
+
+
+def guard_text(root, rel, qual):
+    import ast
+    tree = ast.parse(open(os.path.join(root, rel)).read())
+    fn = _find_def(tree, qual)
+    if fn is None:
+        return None
+    if (fn.body and isinstance(fn.body[0], ast.Expr) and isinstance(fn.body[0].value, ast.Constant)
+            and isinstance(fn.body[0].value.value, str)):
+        fn.body = fn.body[1:] or [ast.Pass()]
+    return ast.unparse(fn) + "\n"
+
+
+def guard_path(rel, qual):
+    return os.path.join(VERIF, "harness", "corr", "guards", rel.replace("/", "__") + "::" + qual + ".txt")
+
+
+def check_guards(root, sites):
+    """returns [(rel, qual, problem text)] for guarded functions whose source differs from the stored text"""
+    import difflib
+    out = []
+    for rel, qual in sites:
+        try:
+            cur = guard_text(root, rel, qual)
+        except Exception as e:
+            out.append((rel, qual, "cannot parse: %s" % e))
+            continue
+        try:
+            want = open(guard_path(rel, qual)).read()
+        except FileNotFoundError:
+            out.append((rel, qual, "no stored text (run harness/tools/update_guards.py)"))
+            continue
+        if cur is None:
+            out.append((rel, qual, "function not found"))
+        elif cur != want:
+            d = [l for l in difflib.unified_diff(want.splitlines(), cur.splitlines(), "model was written against", "current source", lineterm="", n=0)
+                 if not l.startswith(("---", "+++", "@@"))]
+            out.append((rel, qual, "; ".join(d[:6])[:600]))
+    return out
